@@ -55,7 +55,7 @@ def run(ctx):
             for p in parts:
                 out.write(open(p).read())
     h = ctx.build_harness("gocoreh")
-    env = {"VERIF_C06_BUILDS": "120" if ctx.tier == "quick" else "100000"}
+    env = {"VERIF_C06_BUILDS": "120" if ctx.tier == "quick" else "1500"}
     if os.environ.get("VERIF_CORRUPT_TRACE"):
         env["VERIF_CORRUPT_TRACE"] = "1"
     res = ctx.run_harness(h, ["c06"], cases, timeout_s=3000, env=env)
@@ -63,13 +63,13 @@ def run(ctx):
     validate_traces(ctx, "c06", os.path.join(ctx.scratch, "trace.ndjson"), os.path.join(ctx.scratch, "rejected.json"))
     ctx.programs = ctx.validated
     ctx.disagreements_checked = int(ctx.extra.get("compiled_ok", 0))
-    ctx.exhaustive = ctx.tier != "quick"
+    ctx.exhaustive = False
     ctx.rule = ("ProgGen programs of the listed families rendered with XGo sugar (echo/println command calls, list/map "
                 "literals, for-in, lambdas, string interpolation, class-free script, errwrap and comprehension trailer) "
                 "plus every single type-level mutation (9 kinds x all sites) of the `mut` families and every pair of "
                 "mutations of the `pair` family; distinct/non-trivial = distinct (family, sugar, mutation kinds, statement kinds)")
     ctx.assumptions += [
         "go/types with export data of the local tool chain is run on every successfully compiled package; `go build` on "
-        + ("a seeded sample of 120 of them" if ctx.tier == "quick" else "all of them"),
+        + ("a seeded sample of %s of them" % ("120" if ctx.tier == "quick" else "1500")),
         "a compile that panics inside xgolib.Compile counts as an error outcome here (C07 judges panics)",
     ]
